@@ -230,6 +230,16 @@ Proof.
     simpl. rewrite D, I. reflexivity.
 Qed.
 
+Lemma accepts_pos E v : accepts E (VCustom n_check_positive_int) v = true <-> has_type E v TyPosInt.
+Proof.
+  unfold accepts. cbn [validate]. cbn [has_type]. split.
+  - intro H. destruct v; try discriminate H. exists z. split; [reflexivity|].
+    change (custom E n_check_positive_int (JInt z)) with (check_positive_int (JInt z)) in H.
+    simpl in H. destruct (0 <? z)%Z eqn:L; [|discriminate]. apply Z.ltb_lt. exact L.
+  - intros [z [-> L]]. change (custom E n_check_positive_int (JInt z)) with (check_positive_int (JInt z)).
+    simpl. apply Z.ltb_lt in L. rewrite L. reflexivity.
+Qed.
+
 (* url_schemes *)
 
 Lemma opt_check_str (o : option jv) :
@@ -345,7 +355,7 @@ Qed.
 Theorem combinators_sound_complete E t :
   forall v, accepts E (vexpr_of t) v = true <-> has_type E v t.
 Proof.
-  induction t as [| | | |t IH|opts|kinds t IH|k IHk vt IHv| | | | | |]; intro v.
+  induction t as [| | | |t IH|opts|kinds t IH|k IHk vt IHv| | | | | | |]; intro v.
   - (* Any *) simpl. split; auto.
   - (* Bool *) unfold accepts. simpl. destruct v; simpl; split; try discriminate;
       try (intros [b E0]; discriminate); eauto.
@@ -387,6 +397,7 @@ Proof.
   - apply accepts_sub.
   - apply accepts_inv.
   - apply accepts_slug.
+  - apply accepts_pos.
 Qed.
 
 (* ---------- vexpr_eqb is equality ---------- *)
@@ -797,6 +808,9 @@ Proof.
       destruct (e_import E s) as [obj| | |]; try discriminate H.
       destruct obj; try discriminate H. inv H. reflexivity. }
   destruct (str_eqb n n_check_fence_as_directive); [intro H; right; apply (check_fence_stable _ _ H)|].
+  destruct (str_eqb n n_check_positive_int).
+  { intro H. exfalso. unfold check_positive_int in H. destruct v; try discriminate H.
+    destruct (0 <? z)%Z; discriminate H. }
   discriminate.
 Qed.
 
@@ -1226,14 +1240,14 @@ Qed.
 
 (* ---------- docutils option strings ---------- *)
 
-Lemma docutils_one E fs f s y :
+Lemma docutils_one E rules fs f s y :
   nodup_names (map f_name fs) = true -> In f fs -> f_omit_docutils f = false ->
-  docutils_config E fs [(f_name f, s, y)] =
-  (do k <- optparse_kind f; do v <- decode k s y; mk_config E fs [(f_name f, v)]).
+  docutils_config E rules fs [(f_name f, s, y)] =
+  (do k <- optparse_kind rules f; do v <- decode k s y; mk_config E fs [(f_name f, v)]).
 Proof.
   intros ND Hin Om. unfold docutils_config. simpl.
   rewrite (find_field_in _ _ ND Hin), Om.
-  destruct (optparse_kind f) as [k|e]; simpl; [|reflexivity].
+  destruct (optparse_kind rules f) as [k|e]; simpl; [|reflexivity].
   destruct (decode k s y) as [v|e]; reflexivity.
 Qed.
 
@@ -1432,3 +1446,116 @@ Proof.
     { apply validated_is_stable; [|exact V]. rewrite forallb_forall in SV. apply SV. exact Hf. }
     destruct S as [S|S]; rewrite S; reflexivity.
 Qed.
+
+(* ---------- int and bool option strings ---------- *)
+
+Lemma digit_ok d : d < 10 -> is_digit (digit d) = true /\ digit d - 48 = d.
+Proof.
+  intro H. unfold is_digit, digit. split.
+  - apply andb_true_iff. split; apply N.leb_le; lia.
+  - lia.
+Qed.
+
+Lemma show_fuel_digits f : forall n acc, n < 2 ^ N.of_nat (S f) ->
+  exists m, forall v pd,
+    digits_val (show_fuel (S f) n acc) v pd = digits_val acc (v * m + Z.of_N n)%Z true.
+Proof.
+  induction f as [|f IH]; intros n acc Hn.
+  - (* fuel 1: n < 2 *)
+    assert (n / 10 = 0) as D by (apply N.div_small; simpl in Hn; lia).
+    exists 10%Z. intros v pd. cbn [show_fuel]. rewrite D. cbn [N.eqb].
+    assert (M : n mod 10 = n) by (apply N.mod_small; simpl in Hn; lia).
+    rewrite M. destruct (digit_ok n) as [A B]; [simpl in Hn; lia|].
+    cbn [digits_val]. rewrite A, B. reflexivity.
+  - cbn [show_fuel]. destruct (n / 10 =? 0) eqn:D.
+    + apply N.eqb_eq in D. exists 10%Z. intros v pd.
+      assert (n < 10) by (destruct (N.lt_ge_cases n 10) as [L|G]; [exact L|];
+                          assert (1 <= n / 10) by (apply N.div_le_lower_bound; lia); lia).
+      rewrite (N.mod_small n 10) by assumption.
+      destruct (digit_ok n H) as [A B]. cbn [digits_val]. rewrite A, B. reflexivity.
+    + apply N.eqb_neq in D.
+      assert (Hd : n / 10 < 2 ^ N.of_nat (S f)).
+      { rewrite Nat2N.inj_succ in Hn. rewrite N.pow_succ_r' in Hn.
+        apply N.div_lt_upper_bound; [lia|].
+        assert (2 * 2 ^ N.of_nat (S f) <= 10 * 2 ^ N.of_nat (S f)) by (apply N.mul_le_mono_r; lia). lia. }
+      destruct (IH (n / 10) (digit (n mod 10) :: acc) Hd) as [m' Hm].
+      exists (m' * 10)%Z. intros v pd. rewrite Hm.
+      assert (L : n mod 10 < 10) by (apply N.mod_lt; lia).
+      destruct (digit_ok _ L) as [A B]. cbn [digits_val]. rewrite A, B. f_equal.
+      rewrite (N.div_mod n 10) at 3 by lia. rewrite N2Z.inj_add, N2Z.inj_mul. simpl Z.of_N. lia.
+Qed.
+
+Lemma show_digits n : digits_val (show n) 0%Z false = Some (Z.of_N n).
+Proof.
+  unfold show.
+  assert (Hn : n < 2 ^ N.of_nat (S (N.to_nat (N.log2 n)))).
+  { rewrite Nat2N.inj_succ, N2Nat.id. destruct n as [|p]; [simpl; lia|].
+    apply N.log2_spec. lia. }
+  destruct (show_fuel_digits _ n [] Hn) as [m Hm]. rewrite Hm. simpl. reflexivity.
+Qed.
+
+Lemma show_fuel_all_digits f : forall n acc,
+  Forall (fun c => is_digit c = true) acc -> Forall (fun c => is_digit c = true) (show_fuel f n acc).
+Proof.
+  induction f as [|f IH]; intros n acc F; [exact F|]. cbn [show_fuel].
+  assert (L : n mod 10 < 10) by (apply N.mod_lt; lia).
+  destruct (digit_ok _ L) as [A _].
+  destruct (n / 10 =? 0); [constructor; assumption|]. apply IH. constructor; assumption.
+Qed.
+
+Lemma digit_not_space c : is_digit c = true -> py_isspace c = false.
+Proof.
+  unfold is_digit. intro H. apply andb_true_iff in H as [H1 H2].
+  apply N.leb_le in H1, H2.
+  assert (E : c = 48 \/ c = 49 \/ c = 50 \/ c = 51 \/ c = 52 \/ c = 53 \/ c = 54 \/ c = 55 \/ c = 56 \/ c = 57) by lia.
+  destruct E as [->|[->|[->|[->|[->|[->|[->|[->|[->| ->]]]]]]]]]; reflexivity.
+Qed.
+
+Lemma strip_by_id (p : N -> bool) s c r d r' :
+  s = c :: r -> rev s = d :: r' -> p c = false -> p d = false -> strip_by p s = s.
+Proof.
+  intros -> R Pc Pd. unfold strip_by. rewrite (lstrip_head _ c r Pc), R, (lstrip_head _ d r' Pd), <- R.
+  apply rev_involutive.
+Qed.
+
+Lemma Forall_rev_head {A} (P : A -> Prop) l d r : Forall P l -> rev l = d :: r -> P d.
+Proof.
+  intros F R. assert (In d l) by (apply in_rev; rewrite R; left; reflexivity).
+  rewrite Forall_forall in F. auto.
+Qed.
+
+(* int(str(n)) = n and int("-" + str(n)) = -n : the decimal spelling of an int option *)
+Theorem int_roundtrip n :
+  py_int_of_str (show n) = Some (Z.of_N n) /\ py_int_of_str (45 :: show n) = Some (- Z.of_N n)%Z.
+Proof.
+  pose proof (show_digits n) as D.
+  assert (F : Forall (fun c => is_digit c = true) (show n)) by (apply show_fuel_all_digits; constructor).
+  destruct (show n) as [|c r] eqn:S; [simpl in D; discriminate|].
+  destruct (rev (c :: r)) as [|d r'] eqn:R; [apply (f_equal (@List.length N)) in R; rewrite rev_length in R; discriminate|].
+  assert (Pc : py_isspace c = false) by (apply digit_not_space; inv F; assumption).
+  assert (Pd : py_isspace d = false) by (apply digit_not_space; apply (Forall_rev_head _ _ _ _ F R)).
+  split.
+  - unfold py_int_of_str, py_strip. rewrite (strip_by_id _ _ c r d r' eq_refl R Pc Pd).
+    assert (Dc : is_digit c = true) by (inv F; assumption).
+    assert (N1 : c =? 45 = false).
+    { apply N.eqb_neq. intro E. subst. discriminate Dc. }
+    assert (N2 : c =? 43 = false).
+    { apply N.eqb_neq. intro E. subst. discriminate Dc. }
+    rewrite N1, N2. exact D.
+  - unfold py_int_of_str, py_strip.
+    assert (R2 : rev (45 :: c :: r) = d :: (r' ++ [45])).
+    { change (rev (45 :: c :: r)) with (rev (c :: r) ++ [45]). rewrite R. reflexivity. }
+    rewrite (strip_by_id _ _ 45 (c :: r) d (r' ++ [45]) eq_refl R2 eq_refl Pd).
+    cbn [N.eqb]. rewrite D. reflexivity.
+Qed.
+
+Theorem bool_spellings y :
+  forallb (fun sb => match decode KBool (fst sb) y with
+                     | Ok (JBool b) => Bool.eqb b (snd sb)
+                     | _ => false
+                     end) bool_table = true.
+Proof. vm_compute. reflexivity. Qed.
+
+Lemma bool_decode_insensitive s1 s2 y :
+  lower_ascii (py_strip s1) = lower_ascii (py_strip s2) -> decode KBool s1 y = decode KBool s2 y.
+Proof. intro H. unfold decode. rewrite H. reflexivity. Qed.
